@@ -108,3 +108,27 @@ def run(check_program, rec, known, profile, n_examples, hseed, max_stages=6, shr
         return draw(gen.st_program(gen.Ctx(**(ctx_kw or {})), allowed, max_stages=max_stages))
 
     return drive(check_program, s(), n_examples, rec, known, hseed, shrink=shrink)
+
+
+def run_enum(check_program, rec, known, depth, idx, nshards):
+    """Bounded-exhaustive part: every chain of up to `depth` stage templates over every small source."""
+    from . import enumprogs
+    from .common import Outcome
+    setup_process()
+    out = Outcome()
+    n = 0
+    for i, (names, node) in enumerate(enumprogs.enum_programs(depth)):
+        if i % nshards != idx:
+            continue
+        try:
+            check_program(node)
+        except Violation as v:
+            if known is not None and known.match(v.sig):
+                rec.known_hits[v.sig.split('|')[0]] += 1
+                continue
+            out.violation = ({'ast': node, 'program': progs.show(node)}, v.sig, v.detail)
+            return out
+        n += 1
+    rec.extra['enumerated_programs'] = rec.extra.get('enumerated_programs', 0) + n
+    rec.extra['enumeration_depth'] = depth
+    return out
